@@ -31,6 +31,29 @@ type mwRun struct {
 	n    int
 	body int
 	cap  int
+	// stream: body writes are issued as io.Copy(w, <plain reader>) instead of w.Write - what a proxying or file
+	// serving handler does; for the wrapper under test the two must be indistinguishable
+	stream bool
+}
+
+// zeros is a plain io.Reader (no WriteTo), so io.Copy has to go through the destination
+type zeros struct{}
+
+func (zeros) Read(p []byte) (int, error) {
+	for i := range p {
+		p[i] = 0
+	}
+	return len(p), nil
+}
+
+// ReadFrom makes the underlying writer an io.ReaderFrom, as net/http's own response writer is
+func (u *recW) ReadFrom(r io.Reader) (int64, error) {
+	b, err := io.ReadAll(r)
+	if err != nil {
+		return 0, err
+	}
+	n, err := u.Write(b)
+	return int64(n), err
 }
 
 func bodyAllowed(c int) bool { return !((c >= 100 && c <= 199) || c == 204 || c == 304) }
@@ -183,7 +206,11 @@ func buildHandler(tok string, i int, run *mwRun) httpserver.HandlerFunc {
 					rp.Writer().WriteHeader(c)
 				case a[0] == 'w':
 					n, _ := strconv.Atoi(a[1:])
-					_, _ = rp.Writer().Write(make([]byte, n))
+					if run.stream && n > 0 && n <= 32*1024 {
+						_, _ = io.Copy(rp.Writer(), io.LimitReader(zeros{}, int64(n)))
+					} else {
+						_, _ = rp.Writer().Write(make([]byte, n))
+					}
 				case a[0] == 'm':
 					run.tr = append(run.tr, a)
 				case strings.HasPrefix(a, "qs"):
@@ -220,7 +247,7 @@ var mwPoolKeys = []string{"X-A", "X-B", "X-C", "X-Server-State", "X-Content-Type
 
 // serveProgram runs the real Route.ServeHTTP on the program and renders the canonical outcome.
 func serveProgram(path string, cap int, prog string) string {
-	run := &mwRun{sent: -1, cap: cap}
+	run := &mwRun{sent: -1, cap: cap, stream: (len(prog)+cap)%2 == 1}
 	toks := strings.Split(prog, "/")
 	hs := make([]httpserver.HandlerFunc, len(toks))
 	for i, t := range toks {
